@@ -1,5 +1,5 @@
 """C12 -- failures are retried, benign races tolerated, one bad child blocks nothing."""
-from props import sync_level, COMPOSITE, DECORATOR
+from props import sync_level, all_families, COMPOSITE, DECORATOR
 import fam_faults
 
 PLAN = {
@@ -10,6 +10,7 @@ PLAN = {
         "thorough": [("MC_Faults", "Beh_Faults_q.cfg", fam_faults.convert, 0), ("MC_Faults", "Beh_Faults_t.cfg", fam_faults.convert, 4000)],
     },
     "drift": fam_faults.drift,
+    "drift_fam": "faults",
 }
 
 MANIFEST = dict(
@@ -25,4 +26,4 @@ MANIFEST = dict(
 
 
 def run(scr, tier, replay_file):
-    return sync_level(scr, tier, "C12", "C12_", PLAN, replay_file)
+    return sync_level(scr, tier, "C12", "C12_", all_families(PLAN), replay_file)
